@@ -21,9 +21,10 @@ func c19(c *q.Ctx) {
 	// a proposal's deposit is unlocked by Thaw exactly once: only a proposal that is still in the voting state can be
 	// thawed (Thaw itself moves it to cancelled, and the lock record is not deleted)
 	if th := c.Fn("kernel/contract/proposal/propose::(*KernMethod).Thaw"); th != nil {
-		voting := q.Cond{Canon: "(\"voting\" == utils.Parse(*)#0.Status)", Sense: false}
-		for _, tgt := range []string{"KContext.Call", "KContext.Put"} {
-			c.Guard(th, voting, q.ToCall(tgt), q.Opt{})
+		voting := q.Cond{Canon: "(\"voting\" == *#0.Status)", Sense: false}
+		c.Guard(th, voting, q.ToCall("KContext.Call"), q.Opt{})
+		if c.Normalised("K5", "kernel/contract/proposal/propose::(*KernMethod).Thaw", "the proposal record is rewritten only from the voting state") {
+			c.Guard(th, voting, q.ToCall("KContext.Put"), q.Opt{})
 		}
 	}
 	// one account, one record: the balance key is an injective function of the account name exactly as the contract
